@@ -181,14 +181,17 @@ def render_chain(chain, res, rc, note=None):
     for i, spec in enumerate(chain):
         text = emit(spec, i, n)
         texts.append(text)
-    m = Model(chain)
+    # a dynamic <%inherit> whose expression yields None means "no parent": the chain ends at that template
+    cut = next((i for i, sp in enumerate(chain) if sp.get("dynamic") and sp.get("target_none") and i < n), None)
+    eff = chain if cut is None else chain[: cut + 1]
+    m = Model(eff)
     exp = m.render()
     res.evaluations += 1
     what = "chain (most derived first):\n" + "\n".join("  t%d.html: %s" % (i, t) for i, t in enumerate(texts))
     try:
         for i, text in enumerate(texts):
             lk.put_string("t%d.html" % i, text)
-        ctx = {"target%d" % i: "t%d.html" % (i + 1) for i in range(n)}
+        ctx = {"target%d" % i: (None if chain[i].get("target_none") else "t%d.html" % (i + 1)) for i in range(n)}
         got = ("out", lk.get_template("t0.html").render_unicode(**ctx))
     except (AttributeError, TypeError, NameError) as e:
         got = ("exc", "AttributeError" if isinstance(e, (AttributeError, NameError)) else "TypeError", str(e))
@@ -269,6 +272,14 @@ def rand_chain(r):
         if i < n and r.random() < 0.4:
             spec["page"] = ["pa"] if r.random() < 0.7 else ["pa", "pb"]
         chain.append(spec)
+    for i, spec in enumerate(chain):
+        spec["target_none"] = bool(spec["dynamic"] and r.random() < 0.3)
+    cut = next((i for i, sp in enumerate(chain) if sp["target_none"]), None)
+    full = chain
+    if cut is not None:
+        chain = chain[: cut + 1]   # members are resolved against what is really reachable
+        n = cut
+        chain[cut]["page"] = []    # it is the base-most template now: nobody passes it body() arguments
     # fill contents once every template's member set is known
     m = Model(chain)
 
@@ -331,7 +342,12 @@ def rand_chain(r):
             body.append(("nextbody", {a: "%s-from-T%d" % (a, i) for a in tgt["page"]}))
         body.append(("t", ")"))
         spec["body"] = body
-    return chain
+    for spec in full[len(chain):]:
+        # never reached; still has to be a valid template
+        spec["defs"] = {d: [("t", "unreached")] for d in spec["defs"]}
+        spec["blocks"] = {}
+        spec["body"] = [("t", "UNREACHED")]
+    return full
 
 
 def run_negative(res):
